@@ -251,7 +251,7 @@ func monC01(c *child.Ctx, replay json.RawMessage) {
 		return
 	}
 	r := ref.NewRand(c.Seed*7919 + uint64(c.Batch)*104729 + 1)
-	nStreams := c.Share(c.Pick(4000, 200000))
+	nStreams := c.Share(c.Pick(20000, 400000))
 	for i := 0; i < nStreams; i++ {
 		s := gen.HostileStream(r, false)
 		k := streamCase{Input: hexs(s.Bytes())}
@@ -282,7 +282,7 @@ func monC01(c *child.Ctx, replay json.RawMessage) {
 			}
 		}
 	}
-	nDirect := c.Share(c.Pick(20000, 1000000))
+	nDirect := c.Share(c.Pick(100000, 2000000))
 	for i := 0; i < nDirect; i++ {
 		b, note := directCandidate(r)
 		k := streamCase{Input: hexs(b), Direct: true, Note: note}
@@ -374,7 +374,7 @@ func monC03(c *child.Ctx, replay json.RawMessage) {
 			c.Sample(map[string]interface{}{"segments": segSummary(s)})
 		}
 	}
-	n := c.Share(c.Pick(3000, 100000))
+	n := c.Share(c.Pick(20000, 400000))
 	for i := 0; i < n; i++ {
 		o := gen.CleanOpts{MinFrames: 1, MaxFrames: 7, TruncTail: true}
 		if i%3 == 0 {
@@ -393,7 +393,7 @@ func monC03(c *child.Ctx, replay json.RawMessage) {
 	}
 	c.Count("payload_lengths_swept", int64(lens))
 	// the last frame truncated at EVERY byte position
-	m := c.Share(c.Pick(40, 1500))
+	m := c.Share(c.Pick(160, 3000))
 	for i := 0; i < m; i++ {
 		s := gen.CleanStream(r, gen.CleanOpts{MinFrames: 2, MaxFrames: 3, SmallFrames: i%2 == 0})
 		var last gen.Seg
@@ -521,7 +521,7 @@ func monC12(c *child.Ctx, replay json.RawMessage) {
 			c.Sample(map[string]interface{}{"fault": note, "victim_index": victim, "segments": segSummary(t)})
 		}
 	}
-	nStreams := c.Share(c.Pick(48, 2400))
+	nStreams := c.Share(c.Pick(160, 4800))
 	for i := 0; i < nStreams; i++ {
 		s := gen.CleanStream(r, gen.CleanOpts{MinFrames: 2, MaxFrames: 5, SmallFrames: true, SafeMSM: false})
 		var victims []int
@@ -590,7 +590,7 @@ func monC12(c *child.Ctx, replay json.RawMessage) {
 	// streams of small well-formed MSM frames of the timed constellations with
 	// increasing legal timestamps: a corrupted victim (e.g. a flipped timestamp bit)
 	// must not change what is reported for its neighbours
-	nTimed := c.Share(c.Pick(12, 600))
+	nTimed := c.Share(c.Pick(48, 1200))
 	relational = true
 	for i := 0; i < nTimed; i++ {
 		var s gen.Stream
@@ -639,7 +639,7 @@ func monC12(c *child.Ctx, replay json.RawMessage) {
 	}
 	relational = false
 	// larger frames: random faults only
-	nBig := c.Share(c.Pick(300, 30000))
+	nBig := c.Share(c.Pick(2000, 60000))
 	for i := 0; i < nBig; i++ {
 		s := gen.CleanStream(r, gen.CleanOpts{MinFrames: 2, MaxFrames: 6})
 		var victims []int
@@ -821,7 +821,7 @@ func monC02(c *child.Ctx, replay json.RawMessage) {
 			addInput(append(append([]byte(nil), f.Bytes...), f.Bytes[:cut]...), true)
 		}
 	}
-	n := c.Share(c.Pick(3000, 60000))
+	n := c.Share(c.Pick(5000, 60000))
 	for i := 0; i < n; i++ {
 		var s gen.Stream
 		if i%2 == 0 {
